@@ -366,7 +366,7 @@ pub enum TokenType {
 
     #[regex(r"%[IQM]\*", ignore(case))]
     DirectAddressIncomplete,
-    #[regex(r"%[IQM]([XBWDL])?(\d+(\.\d+)*)", ignore(case))]
+    #[regex(r"%[IQM]([XBWDL])?(\d(_?\d)*(\.\d(_?\d)*)*)", ignore(case))]
     DirectAddress,
 
     // Expressions
